@@ -252,9 +252,10 @@ def mesh_table(ctx, rule="C02.mesh"):
     ctx.require(names, "Interferometer.__init__ no longer tests `mesh` against a display of allowed names")
     explicit = set()
     for n in walk_no_nested(dec.node):
-        if isinstance(n, ast.Compare) and isinstance(n.ops[0], ast.Eq) and isinstance(n.comparators[0], ast.Constant) \
-                and isinstance(n.comparators[0].value, str) and "self.mesh" in derives(dec.node, n.left).attrs:
-            explicit.add(n.comparators[0].value)
+        if isinstance(n, ast.Compare) and len(n.ops) == 1 and isinstance(n.ops[0], ast.Eq):
+            for c_, o_ in ((n.comparators[0], n.left), (n.left, n.comparators[0])):
+                if isinstance(c_, ast.Constant) and isinstance(c_.value, str) and "self.mesh" in derives(dec.node, o_).attrs:
+                    explicit.add(c_.value)
     uses_getattr = any(isinstance(n, ast.Call) and dotted(n.func) == "getattr" and len(n.args) >= 2 and
                        (ctx.tree.resolve_dotted(ctx.tree.module("ops.py"), dotted(n.args[0]) or "?") or ("", None))[0] == "module" and
                        "self.mesh" in derives(dec.node, n.args[1]).attrs
@@ -329,17 +330,18 @@ def driver(ctx, rule="C02.driver"):
 
 
 def _zero_tests(test):
-    """names v whose vanishing the test examines: v == 0, v != 0, abs(v) >= tol, abs(v - 1) >= tol, not v"""
+    """names v whose vanishing the test examines: v == 0, v != 0, abs(v) >= tol, abs(v - 1) >= tol (either operand order)"""
     out = set()
     for c in ast.walk(test):
         if isinstance(c, ast.Compare) and len(c.ops) == 1:
-            l, r = c.left, c.comparators[0]
-            if isinstance(r, ast.Constant) and r.value == 0 and isinstance(c.ops[0], (ast.Eq, ast.NotEq)):
-                out |= {x.id for x in ast.walk(l) if isinstance(x, ast.Name)}
-            if isinstance(c.ops[0], (ast.GtE, ast.Gt, ast.Lt, ast.LtE)) and isinstance(l, ast.Call) and \
-                    (dotted(l.func) or "").split(".")[-1] in ("abs", "absolute") and \
-                    (dotted(r) or "").endswith("_tol") or (isinstance(r, ast.Name) and "tol" in r.id and isinstance(l, ast.Call)):
-                out |= {x.id for x in ast.walk(l) if isinstance(x, ast.Name)} - {"np"}
+            for l, r in ((c.left, c.comparators[0]), (c.comparators[0], c.left)):
+                if isinstance(r, ast.Constant) and r.value == 0 and not isinstance(r.value, bool) and \
+                        isinstance(c.ops[0], (ast.Eq, ast.NotEq)):
+                    out |= {x.id for x in ast.walk(l) if isinstance(x, ast.Name)}
+                if isinstance(c.ops[0], (ast.GtE, ast.Gt, ast.Lt, ast.LtE)) and isinstance(l, ast.Call) and \
+                        (dotted(l.func) or "").split(".")[-1] in ("abs", "absolute") and \
+                        ((dotted(r) or "").endswith("_tol") or isinstance(r, ast.Name) and "tol" in r.id):
+                    out |= {x.id for x in ast.walk(l) if isinstance(x, ast.Name)} - {"np"}
     return out
 
 
